@@ -138,7 +138,9 @@ pub fn run_ops<T: HScalar, P: Prob<T>>(mut p: P, ops: &[Value], out: &mut Vec<Va
                 // specification that is handed these parameters through set_params (a model that computes from what set_params
                 // stored would otherwise just repeat whatever the problem's own copy was or was not told)
                 let spec = ModelSpec::<T>::parse(&ctx["model"]);
-                let mut fresh = AnyModel::new(&spec);
+                // ... and always the HAND-WRITTEN flavour: it computes the basis functions directly, independently of the
+                // library's model builder (whose routing of parameters to closures is itself under test)
+                let mut fresh = HandModel::new(spec.clone());
                 let v = if varpro::model::SeparableNonlinearModel::set_params(&mut fresh, p.p_params()).is_ok() {
                     tables(&fresh)
                 } else {
